@@ -83,11 +83,13 @@ def face_bases(V, F, edges, feat):
     return out
 
 
-def lap_faces(V, F, edges, feat, order, cotan):
+def lap_faces(V, F, edges, feat, order, cotan, bases=None):
     """sum over the interior edges e = (a, b), T1 left of a->b, T2 right: w_e d_e^H d_e with d_e = -1 at T1 and
-    e^{i order (angle of e in T1 - angle of e in T2)} at T2"""
+    e^{i order (angle of e in T1 - angle of e in T2)} at T2.  `bases`: the tangent bases the field is expressed in (a gauge the
+    implementation is free to choose; validated as direct orthonormal bases of the face planes by the oracle); default: X along
+    the first feature edge"""
     V = np.asarray(V, dtype=float)
-    B = face_bases(V, F, edges, feat)
+    B = face_bases(V, F, edges, feat) if bases is None else [(np.asarray(X, dtype=float), np.asarray(Y, dtype=float)) for X, Y in bases]
     he = half_edges(F)
     w = edge_weights(V, F, edges) if cotan else [1.0] * len(edges)
     n = len(F)
@@ -105,6 +107,36 @@ def lap_faces(V, F, edges, feat, order, cotan):
             for j in d:
                 L[i, j] += w[k] * d[i].conjugate() * d[j]
     return L
+
+
+def partition(n, F, edges, feat, elem):
+    """constrained elements as the property words them: faces next to a feature edge / end points of the feature edges"""
+    fixed = set()
+    if elem == "faces":
+        he = half_edges(F)
+        for e in feat:
+            a, b = edges[e]
+            for key in ((a, b), (b, a)):
+                if key in he:
+                    fixed.add(he[key][0])
+    else:
+        for e in feat:
+            fixed.update(edges[e])
+    return sorted(fixed), [i for i in range(n) if i not in fixed]
+
+
+def harmonic_extension(L, var0, fixed, free):
+    """z with z = var0 on the constrained elements and (L z)_i = 0 on the free ones (dense solve); None if L_II is too ill-conditioned"""
+    z = np.array(var0, dtype=complex).copy()
+    if not free:
+        return z
+    LII = L[np.ix_(free, free)]
+    rhs = -L[np.ix_(free, fixed)] @ z[fixed] if fixed else np.zeros(len(free), dtype=complex)
+    sv = np.linalg.svd(LII, compute_uv=False)
+    if sv[-1] <= 1e-9 * sv[0]:
+        return None
+    z[free] = np.linalg.solve(LII, rhs)
+    return z
 
 
 def lap_vertices(V, F, order, cotan, transport):
